@@ -114,11 +114,11 @@ func spec_templateOf(s Snippet) *template { t, _ := s.(*template); return t }
 //@   ensures result == (i.typeName == nil)
 
 //@ func Block.Frag
-//@   props C09
+//@   props C09 C01
 //@   lit 1 yields string(v)
 
 //@ func Fragments
-//@   props C09
+//@   props C09 C01
 //@   requires s != nil
 //@   lit 1 yields spec_render(s, ctx)
 //@   loop 1 invariant !stopped && outText == spec_concatN(ys1, it1)
@@ -132,7 +132,7 @@ func spec_renderAll(cs []Snippet, ctx context.Context, n int) string {
 }
 
 //@ func Snippets.Frag
-//@   props C09
+//@   props C09 C01
 //@   lit 1 yields spec_renderAll(spec_yielded(f), ctx, len(spec_yielded(f)))
 //@   loop 1 invariant !stopped && outText == spec_renderAll(ys1, ctx, it1)
 //@   loop 2 invariant !stopped && outText == spec_renderAll(ys1, ctx, it1) + spec_concatN(ys2, it2)
@@ -217,7 +217,7 @@ func spec_args(t *template) map[string]Snippet {
 func spec_src(t *template) []rune { return []rune(strings.TrimLeft(t.format, "\n")) }
 
 //@ func template.Frag
-//@   props C09
+//@   props C09 C01
 //@   requires t != nil
 //@   lit 1 yields spec_tmpl(old(spec_src(t)), 0, old(spec_args(t)), ctx)
 //@   lit 1 panics spec_missing(spec_src(t), 0, spec_args(t))
@@ -236,6 +236,13 @@ func spec_src(t *template) []rune { return []rune(strings.TrimLeft(t.format, "\n
 //@   note the template's format and arguments are read once when iteration starts (old(...)): snippets rendered during the iteration are assumed not to mutate the template they are rendered into
 
 // ---- Sprintf(format, args...) (C09) ----
+
+//@ func pkgExposer.Frag
+//@   props C05 C09
+//@   requires i != nil
+//@   assigns *
+//@   preserves pkg/gengo/snippet.
+//@   note frame, proved on the returned iterator literal too: rendering a PkgExpose snippet stores nothing into ANY snippet value - in particular it keeps no memo of the name it resolved (a snippet value rendered into two generated files must consult each file's own import table: C05)
 
 //@ func ID
 //@   props C09 C11
@@ -302,7 +309,7 @@ func spec_spfPanics(R []rune, i int, k int, args []any) bool {
 }
 
 //@ func printer.Frag
-//@   props C09
+//@   props C09 C01
 //@   requires p != nil
 //@   lit 1 yields spec_spf(old([]rune(p.fmt)), 0, 0, old(p.args), ctx)
 //@   lit 1 panics spec_spfPanics([]rune(p.fmt), 0, 0, p.args)
